@@ -179,6 +179,34 @@ def drive_(a, rng):
         case["repair_error"] = str(e)[:100]
     case["orig"] = abstr.abstract_of(base, cmap, tmap)
     case["repaired"] = abstr.abstract_of(r, cmap, tmap)
+    # --- build_index() over an index that is already there: the rows are put into another valid order in place (parents of equal time
+    # change places; the old index arrays stay, has_index() still holds), then build_index() must index the rows as they are now
+    case["reindex"] = dict(skip=1)
+    v1 = base.copy()
+    v1.sort()
+    v1.build_index()
+    if len(v1.edges) >= 2:
+        tm = v1.nodes.time
+        E = v1.edges
+        order = sorted(range(len(E)), key=lambda j: (tm[E.parent[j]], -int(E.parent[j]), int(E.child[j]), E.left[j]))
+        rows = [E[j] for j in order]
+        if rng.random() < 0.5:
+            sub = E[np.array(order, dtype=np.int64)]
+            E.set_columns(**{k_: v_ for k_, v_ in sub.asdict().items() if k_ != "metadata_schema"})
+        else:
+            for j, r_ in enumerate(rows):
+                E[j] = r_
+        had = 1 if v1.has_index() else 0
+        v1.build_index()
+        loads = 1
+        try:
+            v1.tree_sequence()
+        except tskit.LibraryError:
+            loads = 0
+        ab = abstr.abstract_of(v1, cmap, tmap)
+        case["reindex"] = dict(skip=0, had_index=had, moved=1 if order != list(range(len(E))) else 0, loads=loads,
+                               ts=dict(time=ab["time"], edges=ab["edges"]),
+                               ins=[int(x) for x in v1.indexes.edge_insertion_order], rem=[int(x) for x in v1.indexes.edge_removal_order])
     # --- canonicalise: invariant under row order of the non-node tables (no migrations allowed)
     case["canon_skip"] = 1
     case["canon_same"] = 0
@@ -248,7 +276,11 @@ def run():
             chk.traces += 1
     chk.extra.update(universe_cases=nuni, random_cases=len(cases) - nuni,
                      repaired_loads=sum(c["repaired_loads"] for c in cases), canon_checked=sum(1 - c["canon_skip"] for c in cases),
-                     bookmarked=sum(1 for c in cases if c["edge_start"] or c["site_start"]))
+                     bookmarked=sum(1 for c in cases if c["edge_start"] or c["site_start"]),
+                     reindexed=sum(1 for c in cases if not c["reindex"]["skip"]),
+                     reindexed_rows_moved_under_a_live_index=sum(1 for c in cases if not c["reindex"]["skip"] and c["reindex"]["moved"] and c["reindex"]["had_index"]))
+    if not chk.extra["reindexed_rows_moved_under_a_live_index"]:
+        raise common.MachineryError("no case rebuilt an index over moved rows")
     c = cases[-1]
     chk.sample(dict(shuffled_edges=c["shuffled"]["edges"][:5], sorted_edges=c["sorted"]["edges"][:5], edge_start=c["edge_start"]))
     chk.rule = ("consistent collections with a tag on every row, shuffled in edges/sites/mutations/migrations with references remapped; "
